@@ -16,6 +16,17 @@ CLAIMED = {
         ref="DESIGN.md 4 C14"),
 }
 
+CLAIMED["C15"] = dict(
+    technique="Lean 4 theorems over every linearly ordered field about polymorphic models of the three generators and the dispatch; same definitions run at Float (bit-exact) and Rat against the real generators",
+    text="Proof: regular_exact/regular_spec/regular_fuel (exactly the multiples of 1/rate in (0,T], none missing, termination), poisson_spec (strictly increasing, in (0,T], gaps >= min_isi, for every draw stream), list_spec (+ empty and single-element cases), targets_rewritten / fromJson_key_train / fromJson_keys_nodup (own train per target, accumulation, primes rewritten) - for all inputs over any linearly ordered field. Tie: the same Lean definitions instantiated at IEEE Float are compared bit-for-bit with the real SpikeGenerator on every run (Rat on dyadic inputs), plus independent oracles.",
+    note=TB_COMMON + "Rounding (the ordered-field theorem vs doubles), math.log, random.random and numpy.loadtxt parsing are outside the model; inter-spike intervals computed by the code are passed to the model as exact doubles.",
+    ref="DESIGN.md 4 C15")
+CLAIMED["C12"] = dict(
+    technique="Lean 4 invariant proof over arbitrary operation histories of a state-machine model of get_value/reset/cache toggles, for every propagation function; recorder-based correspondence with the real class",
+    text="Proof: getValue_history_independent - for every propagation function (no law assumed), every strictly increasing spike list, both caching modes and every finite history of queries/toggles/resets the answer for t is spec t (propagate spike to spike, apply all spikes in (0,t]); setSpikeTimes_sorted/grouped (merge keeps every (time,variable) occurrence, strictly increasing); spec_zero/spec_flow/spec_jump characterise spec as the exact impulse-driven solution given the semigroup law (C01). Tie: the real AnalyticIntegrator runs unmodified except _update_step, which records history terms; terms are compared with the model's for random histories; numeric oracle against a 40-digit piecewise reference.",
+    note=TB_COMMON + "IEEE time arithmetic is assumed to satisfy a<b -> 0<b-a; Cython autowrap is replaced by lambdify in quick runs; the exactness of the propagators themselves is C01.",
+    ref="DESIGN.md 4 C12")
+
 NOT_YET = {}
 
 def main():
